@@ -322,6 +322,11 @@ def run_schedule(scripts: dict[int, list[str]], mx: int, steps: list[tuple]) -> 
     with ConnWorld(scripts, mx if mx > 0 else None) as w:
         sched = w.sched
 
+        def all_served():
+            handlers = [n for n in sched.threads if n[0] == "h"]
+            return all(f"c{c}" in sched.done for c in scripts) and len(handlers) == len(scripts) \
+                and all(n in sched.done for n in handlers)
+
         def take(k, c):
             lab = w.step(_tname(k, c))
             trace.append({"k": k, "c": c, "lab": lab})
@@ -330,6 +335,9 @@ def run_schedule(scripts: dict[int, list[str]], mx: int, steps: list[tuple]) -> 
         try:
             for i, (k, c, want) in enumerate(steps):
                 if k == "X":
+                    if not all_served():
+                        drift = {"at": i, "step": [k, c, want], "why": "listener close requested before every connection ended"}
+                        break
                     w.close_listener()
                     trace.append({"k": "X", "c": 0, "lab": ""})
                     continue
@@ -349,9 +357,7 @@ def run_schedule(scripts: dict[int, list[str]], mx: int, steps: list[tuple]) -> 
                     k = "L" if n == "loop" else ("C" if n[0] == "c" else "H")
                     take(k, 0 if k == "L" else int(n[1:]))
                     continue
-                clients_done = all(f"c{c}" in sched.done for c in scripts)
-                handlers = [n for n in sched.threads if n[0] == "h"]
-                if not w.listener_closed and clients_done and len(handlers) == len(scripts) and all(n in sched.done for n in handlers):
+                if not w.listener_closed and all_served():
                     w.close_listener()
                     trace.append({"k": "X", "c": 0, "lab": ""})
                     continue
